@@ -160,7 +160,7 @@ func drawC02Doc(t *rapid.T, format string) (Doc, string) {
 func init() {
 	register(&Property{
 		ID:   "C02",
-		Rule: "documents: library-encoder output of gen.Stream, foreign documents of the reference encoders (non-minimal CBOR, typed UBJSON, JSON with escapes/whitespace), concatenated container streams, byte mutations of valid documents (verdict only) x chunkings (single cut, every byte, cuts aimed into token spans, random subsets) x {Parse, ParseReader(chunk reader), Write sequence with empty writes}; oracle = the library on the unsplit input; non-trivial = a cut strictly inside a multi-byte token (measured from token spans) or an empty write between chunks; the quick tier also enumerates every single cut and the every-byte schedule of a fixed document set; distinct by (doc, cuts) hash",
+		Rule: "documents: library-encoder output of gen.Stream, foreign documents of the reference encoders (non-minimal CBOR, typed UBJSON, JSON with escapes/whitespace), concatenated container streams, byte mutations of valid documents (verdict only) x chunkings (single cut, every byte, cuts aimed into token spans, random subsets) x {Parse, ParseReader(chunk reader), Write sequence with empty writes}; oracle = the library on the unsplit input; non-trivial = a cut strictly inside a multi-byte token (measured from token spans) or an empty write between chunks; the quick tier also enumerates every single cut and the every-byte schedule of a fixed document set, the thorough tier all 2^(n-1) cut subsets of 21 documents of at most 13 bytes; distinct by (doc, cuts) hash",
 		New:  func() any { return &C02Case{} },
 		Draw: func(t *rapid.T) any {
 			c := &C02Case{Format: rapid.SampledFrom(formatNames).Draw(t, "format")}
@@ -201,6 +201,9 @@ var c02EnumDocs = map[string][]string{
 }
 
 func enumC02(emit func(c any) bool) {
+	if !enumC02Thorough(emit) {
+		return
+	}
 	for _, format := range formatNames {
 		for _, d := range c02EnumDocs[format] {
 			doc := []byte(d)
